@@ -8,8 +8,10 @@ require (
 )
 
 require (
+	github.com/fsnotify/fsnotify v1.4.9 // indirect
 	golang.org/x/mod v0.22.0 // indirect
 	golang.org/x/sync v0.10.0 // indirect
+	golang.org/x/sys v0.29.0 // indirect
 )
 
 replace github.com/robfig/soy => /repo
